@@ -176,6 +176,9 @@ def run(ctx):
         if g.returncode != 0:
             raise Broken("vh C18 gen failed", g.stderr[-2000:])
         ops = corpus_lines(prop) + [l for l in g.stdout.split("\n") if l]
+    if ctx.get("c18_kinds"):
+        # another property (C03: payload of MSI containers) reuses the container half of this check
+        ops = [l for l in ops if l.split(" ")[0] == "C18" and l.split(" ")[1] in ctx["c18_kinds"]]
     impl = run_lines([VH, prop, "impl"], ops, env=env, parallel=IMPL_PARALLEL, timeout=3600)
     # phase 2: the Lean side.  rb: the model on the same sequence.  hist: the validator on input and output bytes.
     mops = []
@@ -198,7 +201,7 @@ def run(ctx):
         else:
             mops.append("C18 bad")
     model = run_lines([DRIVER], mops, parallel=NCPU)
-    known = [k for k in load_known() if k.get("property") == prop and k.get("status") == "known"]
+    known = [k for k in load_known() if k.get("property") == ctx.get("c18_prop", prop) and k.get("status") == "known"]
     findings, known_hits = [], []
     tags, kinds, status_hist, out_classes, sizes = Counter(), Counter(), Counter(), Counter(), Counter()
     seen, nontriv = set(), 0
